@@ -162,6 +162,11 @@ def check_1d(case, ctx: Ctx):
             if not math.isnan(v):
                 want = model.locate(ps, v)
                 require(r == want, "find_bin", f"step {k} find_bin({v!r}) = {r!r}, model {want!r}")
+                # the (only) axis may be named explicitly, by index or by name
+                r0 = ctx.call(f"find_bin({v!r}, axis=0)", h.find_bin, v, 0)
+                rn = ctx.call(f"find_bin({v!r}, axis=name)", h.find_bin, v, h.axis_name)
+                require(r0 == want and rn == want, "find_bin_axis", f"step {k} find_bin({v!r}, axis) = {r0!r} / {rn!r}, model {want!r}")
+                ctx.refused("find_bin with an unknown axis", h.find_bin, v, 3)
             require(snap_equal(before, snapshot(h)), "find_bin_mutates", f"step {k} find_bin({v!r})")
             ctx.label("find")
         compare(f"step {k} {op[0]}")
@@ -336,6 +341,16 @@ def check_nd(case, ctx: Ctx):
             r = ctx.call(f"find_bin({row})", h.find_bin, row)
             want = model.locate_nd(axes_pairs, incl, row)
             require(r == want, "find_bin", f"step {k} find_bin({row}) = {r!r}, model {want!r}")
+            if not any(math.isnan(x) for x in row):
+                # one coordinate along one axis: the index on that axis, None outside its bins
+                for a, x in enumerate(row):
+                    i1 = model.locate(axes_pairs[a], x, incl[a])
+                    want1 = i1 if isinstance(i1, int) and 0 <= i1 < len(axes_pairs[a]) else None
+                    ra = ctx.call(f"find_bin({x!r}, axis={a})", h.find_bin, x, a)
+                    rn = ctx.call(f"find_bin({x!r}, axis=name)", h.find_bin, x, h.axis_names[a])
+                    require(ra == want1 and rn == want1, "find_bin_axis", f"step {k} find_bin({x!r}, axis={a}) = {ra!r} / {rn!r}, model {want1!r}")
+                ctx.refused("find_bin of a scalar without an axis", h.find_bin, row[0])
+                ctx.refused("find_bin with a wrongly sized point", h.find_bin, row + [0.0])
             require(snap_equal(before, snapshot(h)), "find_bin_mutates", f"step {k}")
             ctx.label("find")
         compare(f"step {k} {kind}")
